@@ -71,6 +71,14 @@ type Obs struct {
 	Effective []int                        `json:"effective"` // schedule entries that released a gate
 	Hang      string                       `json:"hang,omitempty"`
 	Probe     []string                     `json:"probe,omitempty"` // findings of the lock-discipline probe
+	StoreLog  []StoreEv                    `json:"store_log,omitempty"` // successful driver creates / deletes, in global order
+}
+
+// StoreEv is one successful driver Create or Delete, attributed to its operation.
+type StoreEv struct {
+	Op   int    `json:"op"`
+	What string `json:"what"` // create delete
+	Rev  int    `json:"rev"`
 }
 
 // ---------- per-operation control ----------
@@ -88,6 +96,14 @@ type opCtl struct {
 	obs   *OpObs
 	srv   *sim.Server
 	loose bool // gates disabled (after a hang, to let goroutines drain)
+	slog  *[]StoreEv
+	smu   *sync.Mutex
+}
+
+func (o *opCtl) store(what string, rev int) {
+	o.smu.Lock()
+	*o.slog = append(*o.slog, StoreEv{Op: o.id, What: what, Rev: rev})
+	o.smu.Unlock()
 }
 
 func (o *opCtl) gate() {
@@ -184,6 +200,7 @@ func (d *gdrv) Create(key string, r *rspb.Release) error {
 	}
 	d.o.mu.Unlock()
 	if err == nil {
+		d.o.store("create", r.Version)
 		d.o.log(eng.TEv{Store: "create", Rev: r.Version, St: string(r.Info.Status)})
 	}
 	return err
@@ -200,6 +217,7 @@ func (d *gdrv) Delete(key string) (*rspb.Release, error) {
 	d.o.gate()
 	r, err := d.inner.Delete(key)
 	if err == nil && r != nil {
+		d.o.store("delete", r.Version)
 		d.o.log(eng.TEv{Store: "delete", Rev: r.Version, St: "unknown"})
 	}
 	return d.out(r), err
@@ -369,6 +387,7 @@ func Run(c Case) (obs Obs) {
 	defer r.Srv.SetFault(nil)
 
 	n := len(c.Ops)
+	var smu sync.Mutex
 	obs.Ops = make([]OpObs, n)
 	ctl := make([]*opCtl, n)
 	done := make([]bool, n)
@@ -403,7 +422,7 @@ func Run(c Case) (obs Obs) {
 
 	for i := range c.Ops {
 		op := &c.Ops[i]
-		o := &opCtl{id: i, wake: make(chan struct{}), evt: make(chan int, 1), obs: &obs.Ops[i], srv: r.Srv}
+		o := &opCtl{id: i, wake: make(chan struct{}), evt: make(chan int, 1), obs: &obs.Ops[i], srv: r.Srv, slog: &obs.StoreLog, smu: &smu}
 		ctl[i] = o
 		if rm, rh, err := eng.Render(op); err == nil {
 			o.obs.Rendered, o.obs.RHooks = rm, rh
